@@ -90,7 +90,11 @@ var fioDates = []string{"2020-1-02", "1999-12-31", "2000-2-29", "2024-02-29", "2
 
 func fioGffFile(g *hx.Gen, items int, valid bool) []byte {
 	var buf bytes.Buffer
-	w := gff.NewWriter(&buf, g.Pick(1, 3, 10, 60), g.Chance(0.5))
+	width := g.Pick(1, 3, 10, 60)
+	if g.Chance(0.05) {
+		width = g.Pick(4095, 4096, 5000, 20000)
+	}
+	w := gff.NewWriter(&buf, width, g.Chance(0.5))
 	for i := 0; i < items; i++ {
 		switch g.Intn(12) {
 		case 0:
@@ -112,7 +116,12 @@ func fioGffFile(g *hx.Gen, items int, valid bool) []byte {
 			w.Write(&gff.Region{Sequence: gff.Sequence{SeqName: fioName(g)}, RegionStart: s, RegionEnd: s + 1 + g.Intn(1000)})
 		case 6:
 			mol := g.Intn(3)
-			s := linear.NewSeq(fioName(g), alphabet.BytesToLetters(fioLetters(g, mol, g.Pick(1, 2, 9, 10, 11, 61, 130))), fioAlphas[mol])
+			ln := g.Pick(1, 2, 9, 10, 11, 61, 130)
+			if g.Chance(0.04) || (width > 1000 && g.Chance(0.5)) {
+				// inline sequence blocks (and, with a large width, single lines) beyond the reader's buffer
+				ln = g.Pick(4000, 4093, 4094, 4095, 4096, 4097, 5000, 8191, 8192, 8193, 12000)
+			}
+			s := linear.NewSeq(fioName(g), alphabet.BytesToLetters(fioLetters(g, mol, ln)), fioAlphas[mol])
 			if g.Chance(0.3) {
 				s.Desc = fioText(g, " ")
 			}
@@ -255,6 +264,43 @@ func fioMutate(g *hx.Gen, data []byte) []byte {
 	return bytes.Join(lines, nil)
 }
 
+// fioBoundaryFiles: LF-terminated files with one physical line whose content is exactly L bytes,
+// L around one and two buffer sizes of bufio.NewReader: a BED4 line, a GFF feature line, a
+// line of a GFF inline sequence and the "##DNA <id>" line that opens it; the long line in
+// the middle of the file or last.  k varies the content (and with it the io.Reader behaviour
+// sioSource picks).
+type fioBoundaryFile struct {
+	bed  bool
+	data []byte
+}
+
+var fioBoundaryLens = []int{4094, 4095, 4096, 4097, 4098, 8190, 8191, 8192, 8193, 8194}
+
+func fioBoundaryFiles(g *hx.Gen, variants int) []fioBoundaryFile {
+	var out []fioBoundaryFile
+	pad := func(prefix string, L int) string {
+		n := L - len(prefix)
+		return prefix + string(g.Letters("acgt", n))
+	}
+	for _, L := range fioBoundaryLens {
+		for k := 0; k < variants; k++ {
+			short := fmt.Sprintf("chr2\t5\t%d\tn%d\n", 20+k, k)
+			long := pad("chr1\t1\t10\t", L) + "\n"
+			out = append(out, fioBoundaryFile{true, []byte(short + long)}, fioBoundaryFile{true, []byte(long + short)})
+			gshort := fmt.Sprintf("chr2\tsrc\tgene\t5\t%d\t.\t+\t.\n", 20+k)
+			glong := pad("chr1\tsrc\tgene\t10\t20\t.\t+\t.\tNote ", L) + "\n"
+			out = append(out, fioBoundaryFile{false, []byte(gshort + glong)}, fioBoundaryFile{false, []byte(glong + gshort)})
+			seq := fmt.Sprintf("##DNA s%d\n", k) + pad("##", L) + "\n##end-DNA\n"
+			out = append(out, fioBoundaryFile{false, []byte(seq)}, fioBoundaryFile{false, []byte(seq + gshort)})
+			// the last line of the block (the end marker) pushed to the boundary by trailing blanks is
+			// not valid; a long id line is
+			id := pad("##DNA ", L) + "\n##acgt\n##end-DNA\n"
+			out = append(out, fioBoundaryFile{false, []byte(id)})
+		}
+	}
+	return out
+}
+
 var fioMetaKeywords = []string{"gff-version", "source-version", "date", "Type", "type", "sequence-region", "DNA", "RNA", "Protein", "dna", "rna", "protein", "end-DNA", "", "unknown", "GFF-VERSION"}
 var fioMetaArgs = []string{"2", "1", "3", "0", "-1", "x", "chr1", "10", "DNA", "RNA", "protein", "2020-1-02", "9223372036854775808", "", "0x10", "1_0"}
 
@@ -345,6 +391,17 @@ func c03FeatGen(g *hx.Gen) {
 		g.Casef("gffr %s", hx.Hex([]byte("chr1\tsrc\tgene\t10\t20\t.\t+\t.\t"+a+"\tcomment\n")))
 	}
 
+	// physical lines on the boundaries of bufio's buffer, in the four terminator layouts
+	for _, bf := range fioBoundaryFiles(g, g.Scale(1, 5)) {
+		for _, d := range fioLayouts(bf.data) {
+			if bf.bed {
+				g.Casef("bedr 4 %s", hx.Hex(d))
+			} else {
+				g.Casef("gffr %s", hx.Hex(d))
+			}
+		}
+	}
+
 	// (b) valid files under mutations, (a) arbitrary bytes ---------------------------
 	n := g.Scale(12000, 150000)
 	for k := 0; k < n && !g.Done(); k++ {
@@ -377,6 +434,9 @@ func c03FeatGen(g *hx.Gen) {
 				if g.Chance(0.5) {
 					w := fioWidths[g.Intn(5)]
 					d := fioBedFile(g, w, g.Pick(1, 2))
+					if len(d) > 600 {
+						d = d[:600]
+					}
 					for i := 0; i <= len(d) && !g.Done(); i++ {
 						g.Casef("bedr %d %s", w, hx.Hex(d[:i]))
 					}
